@@ -46,4 +46,97 @@ theorem C03_section_count (f : Fmt) (k : Kind) (img : Img) (v : View) (h : fromB
   rw [C07_sections_length]
   exact ha.2.2.2.2.2.2.2.2.2.2.2.1
 
+/-- the loop of `derva_slice_f` / `deref_slice_f` for EVERY callable `f` (not only `== sentinel`) and
+every element size ≥ 1: fuel `window + 2` is never exhausted -/
+theorem C03_slice_f (v : View) (a : Addr) (size align : Nat) (stop : Nat → Bool) (hs : 1 ≤ size) :
+    v.dervaSliceF a size align stop ≠ .diverge := by
+  unfold View.dervaSliceF
+  cases hat : v.at a 0 align with
+  | ok s =>
+    dsimp only
+    have := sliceFLoop_ne_diverge (b := v.b) (off := s.off) (blen := s.len) (stop := stop) hs (s.len + 2) 0
+      (by omega) (by omega)
+    cases hL : sliceFLoop v.b s.off s.len size stop (s.len + 2) 0 with
+    | diverge => exact absurd hL this
+    | _ => intro h; cases h
+  | diverge => exact absurd hat (v.at_ne_diverge a 0 align)
+  | _ => intro h; cases h
+
+/-- the iteration bound itself: when fewer than `k + 1` elements fit into the window
+(`window < (k + 1) * size`, e.g. `k = window / size`), `k + 1` iterations always suffice — whatever the
+callable, whatever the bytes -/
+theorem C03_slice_f_iterations (b : Bytes) (off blen size : Nat) (stop : Nat → Bool) (k : Nat)
+    (hk : blen < (k + 1) * size) : sliceFLoop b off blen size stop (k + 1) 0 ≠ .diverge := by
+  have key : ∀ (fuel len : Nat), 1 ≤ fuel → blen < (fuel + len) * size →
+      sliceFLoop b off blen size stop fuel len ≠ .diverge := by
+    intro fuel
+    induction fuel with
+    | zero => intro len h; omega
+    | succ fuel ih =>
+      intro len _ h
+      rw [sliceFLoop_succ]
+      by_cases hb : len * size + size > blen
+      · rw [if_pos hb]; intro h'; cases h'
+      · rw [if_neg hb]
+        by_cases hst : stop (leN b (off + len * size) size) = true
+        · rw [if_pos hst]; intro h'; cases h'
+        · rw [if_neg hst]
+          have e : fuel + 1 + len = fuel + (len + 1) := by omega
+          rw [e] at h
+          rcases Nat.eq_zero_or_pos fuel with h0 | h0
+          · subst h0
+            rw [Nat.zero_add, Nat.succ_mul] at h
+            omega
+          · exact ih (len + 1) h0 h
+  exact key (k + 1) 0 (by omega) (by simpa using hk)
+
+/-- `window / size + 1` iterations, as the bound is usually quoted -/
+theorem C03_slice_f_iterations_div (b : Bytes) (off blen size : Nat) (stop : Nat → Bool) (hs : 1 ≤ size) :
+    sliceFLoop b off blen size stop (blen / size + 1) 0 ≠ .diverge := by
+  apply C03_slice_f_iterations
+  have := Nat.lt_div_mul_add (a := blen) (b := size) hs
+  rw [Nat.succ_mul]
+  exact this
+
+/-- **The hypothesis `1 ≤ size` is necessary, in the model and in the Rust code.**  For a zero-sized
+element type the test `offset + size_of::<T>() > bytes.len()` (pe.rs:354) is `0 > len`: never true, so
+the loop is bounded only by the callable.  `()` is `Pod` in `dataview`, and
+`file.derva_slice_f::<(), _>(256, f)` on this very 256-byte image called `f` 10^9 times inside a
+16-byte window before `f` gave up (scratch program against the real code, checked build): the number
+of iterations is NOT bounded by the input.  No type of the crate's own API is zero sized. -/
+theorem C03_slice_f_zst_diverges :
+    demo64File.at (.rva 256) 0 1 = .ok ⟨240, 16, 1⟩ ∧
+    demo64File.dervaSliceF (.rva 256) 0 1 (fun _ => false) = .diverge ∧
+    ∀ fuel len, sliceFLoop demo64File.b 240 16 0 (fun _ => false) fuel len = .diverge := by
+  refine ⟨by decide +kernel, by decide +kernel, ?_⟩
+  intro fuel
+  induction fuel with
+  | zero => intro len; rfl
+  | succ fuel ih =>
+    intro len
+    rw [sliceFLoop_succ, if_neg (by omega), if_neg (by simp)]
+    exact ih (len + 1)
+
+/-! ### non-vacuity -/
+
+/-- `C03_section_count`: a PE32+ file the model (and the real code) accepts, with its one section -/
+example : fromBytes .pe64 .file demo64Img = .ok demo64File ∧ demo64File.secs.length = 1 ∧
+    demo64File.secs = [⟨0x7461642e, 0x61, 24, 256, 16, 240, 0⟩] := by
+  refine ⟨demo64File_ok, ?_⟩
+  decide +kernel
+
+/-- `C03_sentinel_scan` / `C03_slice_f`: `1 ≤ size` for every integer element; the u16 table `7, 9, 0xffff`
+of the PE32+ file is scanned in 3 iterations, a missing sentinel ends at the window (`Bounds`) -/
+example : 1 ≤ 2 ∧ demo64File.dervaSliceS (.rva 260) 2 2 0xffff = .ok ⟨244, 4, 2⟩ ∧
+    sliceFLoop demo64File.b 244 12 2 (fun x => x == 0xffff) 3 0 = .ok 2 ∧
+    demo64File.dervaSliceS (.rva 260) 2 2 0x1234 = .err .bounds ∧
+    sliceFLoop demo64File.b 244 12 2 (fun x => x == 0x1234) (12 / 2 + 1) 0 = .err .bounds := by
+  decide +kernel
+
+/-- `C03_strings`: thresholds ≥ 1, two strings out of 11 bytes; `C03_reloc_blocks` has no hypothesis -/
+example : (1 ≤ (⟨3, 3, false⟩ : Strings.Config).minLen ∧ 1 ≤ (⟨3, 3, false⟩ : Strings.Config).minLenNul) ∧
+    Strings.enumAll #[0x1f, 0x43, 0x2d, 0x53, 0x54, 0x00, 0x80, 0x41, 0x41, 0x41, 0xff] ⟨3, 3, false⟩ 13 0 =
+      .ok [⟨1, 4, true⟩, ⟨7, 3, false⟩] := by
+  decide +kernel
+
 end Pelite.Pe
